@@ -68,3 +68,17 @@ add("C14", "exploration",
     "angular tolerance 3e-5 deg / resultant length (complex64 accumulator); jumps of exactly 180 excluded; "
     "longitude data range not judged (only equivalence modulo 360)",
     "differential + geometric (arc membership) monitors over seeded hostile angular workloads", "4/C14")
+add("C15", "exploration",
+    "History workload over a pool of spectra: every public operation (incl. ones that raise) is followed by a "
+    "byte/dtype/dims/shape comparison of every variable of every pool member; deep copies are overwritten to prove "
+    "independence; concatenate-then-select for N in 1..6 and every i via isel/sel/[]; flatten pairing against "
+    "unravel_index; netCDF round trips incl. NaN and infinite depth. Held-on-K-executions.",
+    "in-place operations (fillna, multiply(inplace=True)) excluded; concatenation along a *new* dimension only "
+    "(scalar members -> time, or flattened join), as the property states",
+    "snapshot-diff history monitor (operand immutability) + round-trip monitors over random operation sequences", "4/C15")
+add("C16", "exploration",
+    "Seeded spectra x sampling rates x even/odd lengths x six components: sample variances compared with an "
+    "independently resampled spectral sum (rtol 1e-9, exact identity of the inverse real FFT), axis length and "
+    "spacing, seed reproducibility incl. single-bit seed differences, sqrt(c) scaling. Held-on-K-executions.",
+    "population variance of the nfft samples; scalar-layout spectra without NaN; unidirectional 2D spectra",
+    "runtime conservation monitor (time-domain variance vs spectral sum) + metamorphic seed/scale pairs", "4/C16")
